@@ -160,10 +160,65 @@ def render(hs, cmd, now, mtime, quiet=0):
 
 
 def glob_match(pat, s):
-    """'*' any run, '?' exactly one character, everything else literal; case-sensitive; whole-string match."""
-    import re
-    rx = b''.join(b'.*' if c == 0x2a else b'.' if c == 0x3f else re.escape(bytes([c])) for c in pat)
-    return re.fullmatch(rx, s, re.S) is not None
+    """'*' any run, '?' exactly one character, everything else literal; case-sensitive; whole-string match.
+    (Set-of-positions simulation: linear in len(pat) * len(s), whatever the number of stars.)"""
+    cur = {0}                       # positions in s reachable after the pattern so far
+    n = len(s)
+    for c in pat:
+        if not cur:
+            return False
+        if c == 0x2a:
+            cur = set(range(min(cur), n + 1))
+        elif c == 0x3f:
+            cur = {k + 1 for k in cur if k < n}
+        else:
+            cur = {k + 1 for k in cur if k < n and s[k] == c}
+    return n in cur
+
+
+def glob_from(rnd, nm):
+    """A wildcard derived from the name nm: characters kept, replaced by '?', runs replaced by '*', several stars in a row,
+    stars next to '?', an occasional wrong character.  Whether it matches nm (or anything else) is for glob_match to say.
+    Bytes that cannot travel through a command line unchanged become '?'.  At most four stars per wildcard and 60 characters
+    of the name: a backtracking matcher needs about len^stars steps to say no, and this is about shapes, not running time."""
+    out = b''
+    i = 0
+    stars = 4
+    while i < len(nm):
+        c = nm[i]
+        r = rnd.random()
+        if i >= 60:
+            if stars:
+                out += b'*'
+                stars -= 1
+            else:
+                out += b'?' * (len(nm) - i)
+            break
+        if not (0x20 < c < 0x7f) or c in b'*?\\':
+            out += b'?'
+            i += 1
+            continue
+        if r >= 0.72 and r < 0.97:
+            g = b'*' if r < 0.85 else rnd.choice([b'**', b'***', b'*?*', b'?*', b'*?', b'**?'])
+            if g.count(b'*') <= stars:
+                stars -= g.count(b'*')
+                out += g
+                i += rnd.randrange(0, 4)
+                continue
+            r = 0.0
+        if r < 0.62:
+            out += bytes([c])
+        elif r < 0.72:
+            out += b'?'
+        else:
+            out += b'x' if c != 0x78 else b'y'
+        i += 1
+    if stars and rnd.random() < 0.15:
+        out += b'*'
+        stars -= 1
+    if stars and rnd.random() < 0.1 and not out.startswith(b'*'):
+        out = b'*' + out
+    return out or b'*'
 
 
 def parse_hdr(path):
